@@ -407,7 +407,6 @@ func HarnessModel() {
 	zz.Reach("done")
 }
 
-
 // HarnessMove (C04): MoveBucket against the model, including source/destination buckets created in
 // the same transaction, a moved bucket edited earlier in the transaction and a destination inside
 // the moved bucket.
